@@ -17,6 +17,7 @@ import (
 	"fmt"
 	mrand "math/rand"
 	"os"
+	"os/exec"
 	"path/filepath"
 	"sort"
 	"strconv"
@@ -962,7 +963,260 @@ func planCases(thorough bool, budget int) int {
 	return n
 }
 
+// ---- (e) two processes create the SAME counter while the file has to grow ----
+// Two file objects (two instances of one program) have the same counter file
+// mapped; its first page is nearly full.  Both record the same new long name at
+// the same time: both extend / re-map, one links its record, the other finds
+// the duplicate after its re-map.  Afterwards (everything has returned) each
+// adds once more: these adds must not go through a closed mapping, and the
+// record holds every count.  sched: k >= 0: instance `first` runs k steps,
+// the other one to completion, then the first finishes; k < 0: random.
+func dupCase(first, k int) {
+	if tooManyHangs() {
+		return
+	}
+	dir, err := os.MkdirTemp(root, "d")
+	if err != nil {
+		panic(err)
+	}
+	defer os.RemoveAll(dir)
+	telemetry.Default = telemetry.NewDir(dir)
+	now := time.Date(2024, 1, 3, 10, 0, 0, 0, time.UTC)
+	counter.CounterTime = func() time.Time { return now }
+	planSeq++
+	mrand.Seed(int64(Seed())*1000003 + planSeq)
+	maps = nil
+	vatomic.ResetClosed()
+	vosc.Reset(nil)
+	counter.VerifMunmapMark(true)
+	defer counter.VerifMunmapMark(false)
+	fs := []*counter.VerifFile{counter.VerifNewFile(), counter.VerifNewFile()}
+	fs[0].Rotate1()
+	for i := 0; i < 3; i++ {
+		fs[0].NewCounter(restNames[5] + strconv.Itoa(i)).Add(1)
+	}
+	fs[1].Rotate1()
+	same := fs[0].CurrentName() == fs[1].CurrentName() && fs[0].CurrentName() != ""
+	name := restNames[5] + "dup"
+	cs := []*counter.Counter{fs[0].NewCounter(name), fs[1].NewCounter(name)}
+	amounts := []int64{2, 3}
+	s := vsched.New(false)
+	status := "ok"
+	tids := []int{
+		s.Go(func() { cs[0].Add(amounts[0]) }),
+		s.Go(func() { cs[1].Add(amounts[1]) }),
+	}
+	total := uint64(amounts[0] + amounts[1])
+	steps := 0
+	budget := 40000
+	run := func(i int) bool {
+		if s.Done(tids[i]) || budget == 0 {
+			return false
+		}
+		budget--
+		s.Step(tids[i])
+		steps++
+		return true
+	}
+	if k >= 0 {
+		for i := 0; i < k && run(first); i++ {
+		}
+		for run(1 - first) {
+		}
+		for run(first) {
+		}
+	} else {
+		for !s.Done(tids[0]) || !s.Done(tids[1]) {
+			i := rnd.Intn(2)
+			if !run(i) && !run(1-i) {
+				break
+			}
+		}
+	}
+	if budget == 0 {
+		status = "hang"
+		nHangs++
+	}
+	for _, tid := range tids {
+		if p := s.Last(tid).Panic; p != "" {
+			status = "panic"
+			if debug {
+				fmt.Fprintln(os.Stderr, p)
+			}
+		}
+	}
+	vsched.Stop()
+	// quiescent: one more add each
+	lateUse := 0
+	if status == "ok" {
+		for i := range cs {
+			evBefore := 0
+			st, _ := runManagedEvents(20000, func() { cs[i].Add(1) }, &evBefore, &lateUse)
+			total++
+			if st != "ok" {
+				status = st
+				break
+			}
+		}
+	}
+	extra := uint64(0)
+	persisted := uint64(0)
+	nrec := 0
+	if status == "ok" {
+		for _, c := range cs {
+			extra += counter.VerifExtra(c)
+		}
+		if d, err := os.ReadFile(fs[0].CurrentName()); err == nil && len(d) >= 64 {
+			for _, r := range linked(d, le32(d, 28)) {
+				if r.name == name {
+					persisted += r.val
+					nrec++
+				}
+			}
+		}
+	}
+	out.Case(true, "dup", I(int64(first)), I(int64(k)), B(same), status, U(total), U(extra), U(persisted), I(int64(nrec)), I(int64(steps)), I(int64(lateUse)))
+	out.Note("dup")
+	if status == "ok" {
+		fs[0].Close()
+		fs[1].Close()
+	}
+}
+
+// runManagedEvents: runManaged, counting the accesses through closed mappings made by fn
+func runManagedEvents(budget int, fn func(), evBefore *int, lateUse *int) (string, int) {
+	s := vsched.New(false)
+	defer vsched.Stop()
+	tid := s.Go(fn)
+	steps := 0
+	for !s.Done(tid) {
+		if steps >= budget {
+			s.Kill(tid)
+			nHangs++
+			return "hang", steps
+		}
+		s.Step(tid)
+		steps++
+	}
+	for _, e := range s.Events {
+		if strings.HasPrefix(e, "USE-AFTER-UNMAP") {
+			*lateUse++
+		}
+	}
+	if p := s.Last(tid).Panic; p != "" {
+		return "panic", steps
+	}
+	return "ok", steps
+}
+
+func dupCases(thorough bool) int {
+	n := 0
+	maxK, nrand := 70, 30
+	if thorough {
+		maxK, nrand = 400, 400
+	}
+	for first := 0; first < 2; first++ {
+		for k := 0; k <= maxK; k++ {
+			dupCase(first, k)
+			n++
+		}
+	}
+	for i := 0; i < nrand; i++ {
+		dupCase(0, -1)
+		n++
+	}
+	return n
+}
+
+// ---- (d) the package-level Open API ----
+// counter.Open(rotate) is once-per-process (sync.Once, package variables), so
+// each case is a child process of this binary: the telemetry directory is
+// prepared with one state of the mode file (or there is no configuration
+// directory at all: zero telemetry.Dir), the child calls Open(rotate) twice
+// with the same value (a program and a library it uses both open the
+// counters), increments a counter and calls the returned close function.
+func openAPIChild(dir string, rotate bool) {
+	status := "ok"
+	func() {
+		defer func() {
+			if r := recover(); r != nil {
+				status = "panic"
+				fmt.Fprintln(os.Stderr, "openapi child:", r)
+			}
+		}()
+		if dir == "-" {
+			telemetry.Default = telemetry.Dir{}
+		} else {
+			telemetry.Default = telemetry.NewDir(dir)
+		}
+		counter.VerifFaultInit(func(base uintptr, n int) {})
+		vsched.Stop()
+		closeFn := counter.Open(rotate)
+		closeFn2 := counter.Open(rotate)
+		counter.New("openapi/x").Inc()
+		closeFn2()
+		closeFn()
+	}()
+	fmt.Println(status)
+}
+
+func openAPICases() int {
+	n := 0
+	one := func(state string, content []byte, noconfig bool, rotate bool) {
+		dir, err := os.MkdirTemp(root, "o")
+		if err != nil {
+			panic(err)
+		}
+		defer os.RemoveAll(dir)
+		arg := dir
+		if noconfig {
+			arg = "-"
+		} else if content != nil {
+			if err := os.WriteFile(filepath.Join(dir, "mode"), content, 0666); err != nil {
+				panic(err)
+			}
+		}
+		cmd := exec.Command(os.Args[0], "openapi-child", arg, B(rotate))
+		cmd.Env = append(os.Environ(), "VERIF_SEED=1")
+		o, err := cmd.Output()
+		status := strings.TrimSpace(string(o))
+		if status != "ok" && status != "panic" {
+			status = "crash" // the child died without reaching its report
+		}
+		created := false
+		if es, err := os.ReadDir(filepath.Join(dir, "local")); err == nil {
+			for _, e := range es {
+				if strings.HasSuffix(e.Name(), ".count") {
+					created = true
+				}
+			}
+		}
+		fields := []string{"openapi", state, B(rotate), status, B(created)}
+		if noconfig {
+			fields = append(fields, "noconfig")
+		} else if content == nil {
+			fields = append(fields, "nomode")
+		} else {
+			fields = append(fields, "mode", H(content))
+		}
+		out.Case(true, fields...)
+		out.Note("openapi-" + state)
+		n++
+	}
+	for _, rotate := range []bool{false, true} {
+		for _, m := range modeStates {
+			one(m.name, m.content, false, rotate)
+		}
+		one("no-config-dir", nil, true, rotate)
+	}
+	return n
+}
+
 func main() {
+	if len(os.Args) == 4 && os.Args[1] == "openapi-child" {
+		openAPIChild(os.Args[2], os.Args[3] == B(true))
+		return
+	}
 	outPath := os.Args[1]
 	n, _ := strconv.Atoi(os.Args[2])
 	rnd = NewRand(Seed())
@@ -977,8 +1231,14 @@ func main() {
 	counter.VerifFaultInit(func(base uintptr, n int) { maps = append(maps, mapping{base, uintptr(n)}) })
 	buildNames()
 	thorough := os.Getenv("VERIF_TIER") == "thorough"
-	np := planCases(thorough, n/3)
+	budget := n / 3
+	if !thorough && budget < 800 {
+		budget = 800 // the single-fault grid of the quick tier does not shrink with the number of damaged-file cases
+	}
+	np := planCases(thorough, budget)
 	np += concFailCases(thorough)
+	np += openAPICases()
+	np += dupCases(thorough)
 	for i := np; i < n; i++ {
 		restCase()
 	}
